@@ -108,6 +108,20 @@ func (o *authOracle) c09end(e *Env, si *StepInfo) {
 
 func (o *authOracle) c09(e *Env, si *StepInfo) {
 	prev, cur := si.Prev, si.Cur
+	// an accepted permission request of the owner takes effect as signed: the model carries exactly
+	// the two lists of the request afterwards (a revocation that is accepted but not applied leaves
+	// the revoked DID able to change the model)
+	if si.Op.K == "perm" && si.Built != nil && si.Built.Auth != nil && si.Built.Auth.Intact {
+		if mp, ok := si.Built.Msgs[0].(*saotypes.MsgUpdataPermission); ok {
+			if pm, had := prev.Model.Metas[mp.Proposal.DataId]; had && pm.Owner == si.Built.Auth.SignerDid {
+				if cm, has := cur.Model.Metas[mp.Proposal.DataId]; has {
+					if fmt.Sprint(cm.ReadonlyDids) != fmt.Sprint(mp.Proposal.ReadonlyDids) || fmt.Sprint(cm.ReadwriteDids) != fmt.Sprint(mp.Proposal.ReadwriteDids) {
+						o.once(e, "C09", "C09.perm", stepLabel(si), "permission-request-not-applied-as-signed", mp.Proposal.DataId, fmt.Sprintf("data model %s: the owner's accepted permission request names read-only %d / read-write %d DIDs, the model now lists %d / %d", mp.Proposal.DataId, len(mp.Proposal.ReadonlyDids), len(mp.Proposal.ReadwriteDids), len(cm.ReadonlyDids), len(cm.ReadwriteDids)))
+					}
+				}
+			}
+		}
+	}
 	if prev.Model == cur.Model {
 		return
 	}
